@@ -24,6 +24,61 @@ var findingClasses []findingClass
 
 func init() {
 	Checks["C01"] = checkC01
+	Checks["C02"] = checkC02
+	Checks["C03"] = checkC03
+	Checks["C06"] = checkC06
+	Checks["C07"] = checkC07
+}
+
+func checkC02(cc *CheckCtx, r *Report) {
+	ts := TmplSpec{Depth: 2, MaxLen: 2, MaxKeys: 3}
+	if cc.Thorough() {
+		ts = TmplSpec{Depth: 2, MaxLen: 3, MaxKeys: 4}
+	}
+	skels := FamilyDraft7(ts, true)
+	r.Bounds = append(r.Bounds, boundsValidate...)
+	r.Outside = append(r.Outside, "2020-12-only keywords inside a draft-07 document; remote documents that declare a different draft than the root")
+	cc.RunValidateFamily(r, skels, VOptions{ValidatePaths: true})
+}
+
+func checkC03(cc *CheckCtx, r *Report) {
+	skels := FamilyRef(cc.Thorough(), cc.Seed)
+	r.Bounds = append(r.Bounds, boundsValidate...)
+	r.Bounds = append(r.Bounds, "reference topologies are enumerated (scaffold): the solver quantifies over the instance under each ref; Resolve error agreement and loader call counts are native observations per topology")
+	r.Outside = append(r.Outside, "URI strings are concrete (net/url is native); references into a location inside a remote document's path, into unknown keywords or non-schema values; embedded resources of loaded documents addressed by their own $id from another document")
+	cc.RunValidateFamily(r, skels, VOptions{ValidatePaths: true})
+}
+
+func checkC06(cc *CheckCtx, r *Report) {
+	var skels []*Skeleton
+	if cc.Thorough() {
+		skels = append(FamilyDyn(3, 2, cc.Seed, false), FamilyDyn(3, 1, cc.Seed+1, true)...)
+		skels = append(skels, FamilyDyn(5, 0, cc.Seed+2, false)[:0]...)
+	} else {
+		skels = append(FamilyDyn(2, 2, cc.Seed, false), FamilyDyn(2, 1, cc.Seed+1, true)...)
+	}
+	r.Bounds = append(r.Bounds, "dynamic-scope topologies: 1..2 (quick) / 1..3 (thorough) resources + root, each with $dynamicAnchor/$anchor/no anchor, all visiting orders, hops by $ref / allOf / $dynamicRef, final $dynamicRef in fragment, resource-relative and pointer form, embedded or loader-supplied; instance = one symbolic JSON value; two Validate calls on the same Resolved per path")
+	cc.RunValidateFamily(r, skels, VOptions{ValidatePaths: true})
+}
+
+func checkC07(cc *CheckCtx, r *Report) {
+	ts := TmplSpec{Depth: 2, MaxLen: 3, MaxKeys: 3}
+	skels := FamilyNest(ts, cc.Thorough())
+	for _, sk := range FamilyPair(TmplSpec{Depth: 2, MaxLen: 2, MaxKeys: 3}, true) {
+		if strings.Contains(sk.Doc, "unevaluated") {
+			skels = append(skels, sk)
+		}
+	}
+	if cc.Thorough() {
+		for _, sk := range FamilyNest(TmplSpec{Depth: 2, MaxLen: 3, MaxKeys: 4}, true) {
+			c := *sk
+			c.Name += ".all-orders"
+			c.AllOrders = true
+			skels = append(skels, &c)
+		}
+	}
+	r.Bounds = append(r.Bounds, boundsValidate...)
+	cc.RunValidateFamily(r, skels, VOptions{ValidatePaths: true})
 }
 
 var boundsValidate = []string{
